@@ -1149,6 +1149,26 @@ class CallsMixin:
         self.sum_terms.append((arr, count))
         return Z.mk_r(Z.SUMR(arr, count))
 
+    def spec_count_failures(self, node, st):
+        """count_failures(results, k) = #{i < k : results[i]['ok'] is not True (by ==)}: uninterpreted CNT with its recurrence instantiated"""
+        xs = self.ev1(node.args[0], st)
+        k = Z.ival(self.ev1(node.args[1], st))
+        h = st.heap
+        arr = h.elems(Z.addr(xs))
+        CNT = z3.Function('CNT_fail', Val, I, I)
+        okv = lambda idx: z3.Select(z3.Select(st.old_heap.dv if st.old_heap is not None else h.dv, Z.addr(z3.Select(arr, idx))), Z.mk_s('ok'))
+        bad = lambda idx: z3.Not(z3.And(Z.is_num(okv(idx)), Z.num(okv(idx)) == 1))
+        if 'q!' not in k.sexpr():
+            i = z3.Int('i!cnt')
+            self.extra_facts += [CNT(xs, z3.IntVal(0)) == 0,
+                                 z3.Implies(k >= 0, CNT(xs, k + 1) == CNT(xs, k) + z3.If(bad(k), 1, 0)),
+                                 z3.Implies(k >= 1, CNT(xs, k) == CNT(xs, k - 1) + z3.If(bad(k - 1), 1, 0)),
+                                 z3.Implies(k >= 0, z3.And(CNT(xs, k) >= 0, CNT(xs, k) <= k)),
+                                 # monotone (instance of the induction-proved prefix-count lemma PC.mono with increments in {0, 1})
+                                 Z.forall([i], z3.Implies(z3.And(i >= 0, i < k), z3.And(CNT(xs, i) >= 0, CNT(xs, i) + z3.If(bad(i), 1, 0) <= CNT(xs, k))),
+                                          patterns=[CNT(xs, i)], qid='CNT_mono')]
+        return Z.mk_i(CNT(xs, k))
+
     def spec_sum_field(self, node, st):
         """sum_field(L, 'k') = sum of L[i]['k'] over the list L"""
         lst = self.ev1(node.args[0], st)
@@ -1203,6 +1223,10 @@ class CallsMixin:
         args = [self.ev1(a, st) for a in node.args[1:]]
         f = z3.Function(name, *([Val] * len(args) + [Val]))
         return f(*args)
+
+    def spec_str_lower(self, node, st):
+        (a,) = self._sargs(node, st)
+        return Z.mk_s(Z.STR_LOWER(Z.sv(a)))
 
     def spec_str_replace(self, node, st):
         a, b, c = self._sargs(node, st)
